@@ -9,7 +9,7 @@ from periodictable.formulas import formula, Formula, mix_by_weight, mix_by_volum
 seed, ncase = int(sys.argv[1]), int(sys.argv[2])
 rng = random.Random(seed)
 PUB = periodictable.elements
-ELEM = ["Fe", "Ni", "Si", "Au", "Cr", "Co", "Ti", "Al", "Cu", "Pb", "W", "Mg", "Zn"]
+ELEM = ["Fe", "Ni", "Si", "Au", "Cr", "Co", "Ti", "Al", "Cu", "Pb", "W", "Mg", "Zn", "2Fe", "(Ni)2", "Cu3"]
 DENS = ["H2O@1", "D2O@1n", "NaCl@2.16", "SiO2@2.2", "C6H6@0.88", "CaCO3@2.71", "Fe2O3@5.24", "C2H6O@0.789", "H2O@1.0n",
         "Fe[56]2O3@5.1", "Na{+}Cl{-}@2.16", "(HO)2Ca@2.2"]
 # the same compounds in another phase / at another density (polymorphs), and elements away from their tabulated density
